@@ -310,16 +310,7 @@ class Retrieve:
         self.remaining_sharemap = DictOfSets()
         for (shnum, server, timestamp) in shares:
             self.remaining_sharemap.add(shnum, server)
-            # Reuse the SlotReader from the servermap.
-            key = (self.verinfo, server.get_serverid(),
-                   self._storage_index, shnum)
-            if key in self.servermap.proxies:
-                reader = self.servermap.proxies[key]
-            else:
-                reader = MDMFSlotReadProxy(server.get_storage_server(),
-                                           self._storage_index, shnum, None)
-            reader.server = server
-            self.readers[shnum] = reader
+            self.readers[shnum] = self._make_reader(server, shnum)
 
         if len(self.remaining_sharemap) < k:
             self._raise_notenoughshareserror()
@@ -337,6 +328,18 @@ class Retrieve:
         # comprise it, and its root is in the verinfo.
         self.share_hash_tree = hashtree.IncompleteHashTree(N)
         self.share_hash_tree.set_hashes({0: root_hash})
+
+    def _make_reader(self, server, shnum):
+        # Reuse the SlotReader from the servermap.
+        key = (self.verinfo, server.get_serverid(),
+               self._storage_index, shnum)
+        if key in self.servermap.proxies:
+            reader = self.servermap.proxies[key]
+        else:
+            reader = MDMFSlotReadProxy(server.get_storage_server(),
+                                       self._storage_index, shnum, None)
+        reader.server = server
+        return reader
 
     def decode(self, blocks_and_salts, segnum):
         """
@@ -589,6 +592,17 @@ class Retrieve:
             # holds.
             for other_shnum in list(self.remaining_sharemap.keys()):
                 self.remaining_sharemap.discard(other_shnum, reader.server)
+
+        # self.readers holds one reader per share number. If another server
+        # has a copy of the share number we just gave up on, switch to that
+        # copy: otherwise _activate_enough_servers() would see the share
+        # number in remaining_sharemap and hand out this same reader again,
+        # forever.
+        other_holders = self.remaining_sharemap.get(reader.shnum)
+        if other_holders:
+            self.readers[reader.shnum] = self._make_reader(
+                sorted(other_holders, key=lambda s: s.get_serverid())[0],
+                reader.shnum)
 
     def _download_current_segment(self):
         """
